@@ -40,7 +40,7 @@ def canaries(case):
     if case['kind'] == 'addsub' and case['sum'].get('t') == 'dt':
         c['sum']['ms'] = (c['sum']['ms'] + 1) % 86400000
         return [c]
-    if case['kind'] == 'iso' and case['back'].get('t') == 'dt' and case['text']:
+    if case['kind'] == 'iso' and case['back'].get('t') == 'dt' and case['text'] and case['back'] == case['d']:  # not a gap time (the law says nothing there)
         c['back']['ms'] = (c['back']['ms'] + 60000) % 86400000
         c2 = json.loads(json.dumps(case))
         c2['text'][-1] = 57 if c2['text'][-1] != 57 else 56
